@@ -210,5 +210,16 @@ def playback_print(src_root, target_dir, fqn, timeout_s=900, mem_gb=24):
                            text=True, timeout=timeout_s + 300, preexec_fn=_limit_mem(mem_gb))
     except subprocess.TimeoutExpired:
         return None, ""
-    m = re.search(r"```\s*\n(.*?)```", p.stdout, flags=re.S)
-    return (m.group(1) if m else None), p.stdout
+    blocks = re.findall(r"```\s*\n(.*?)```", p.stdout, flags=re.S)
+    # one generated test per failing check AND per satisfied cover: keep the ones for failing checks
+    keep = [b for b in blocks if "Check for `cover`" not in b]
+    if not keep:
+        return None, p.stdout
+    # distinct test functions only
+    seen, out = set(), []
+    for b in keep:
+        m = re.search(r"fn\s+(kani_concrete_playback_\w+)", b)
+        if m and m.group(1) not in seen:
+            seen.add(m.group(1))
+            out.append(b)
+    return "\n".join(out[:4]), p.stdout
